@@ -550,6 +550,10 @@ def _judge_world(w, compiled, guards, stats, fi):
     if len(sel) != 1:
         raise AnalysisError('decision paths of perform_summation are not exclusive (%d for one case)' % len(sel))
     p = sel[0]
+    for eff in p.effects:
+        if isinstance(eff, ast.stmt) and X.assigned_names(eff) and not (isinstance(eff, ast.For) and _range_of(p, None) is not None
+                                                                      and _range_of(p, None)[0] is eff.iter):
+            raise AnalysisError('perform_summation: statement `%s` is not followed by the symbolic reading' % short(eff, 60))
     st = stats[group]
     st['n'] += 1
     if p.leaf.kind == 'raise':
@@ -611,7 +615,7 @@ def d2_limits(ctx, idx):
     r = ctx.rule('D2.LIMITS', 'evaluate_sum: refusals (variable in scope, complex, non-integer) raise SummationError before the '
                  'summation; cutoff by factorial use; summand closure binds and releases the index', floor=21)
     with r:
-        fi = X.unrolled(idx.func(SG + '.evaluate_sum'))
+        fi = X.unrolled(X.inline_procedures(idx, idx.func(SG + '.evaluate_sum'), only=set(getattr(idx, 'unreviewed', []) or [])))
         fn = fi.node
         KNOWN = {'get_limits_and_funcs', 'isinstance', 'abs', 'float', 'int', 'SummationError', 'format', 'evaluator', 'perform_summation'}
         understood = X.only_calls([s for s in fn.body if not isinstance(s, ast.FunctionDef)], KNOWN)
@@ -763,7 +767,10 @@ def _cutoff(r, fi, ps, F):
         plain = [s for s in walk_own(fn) if isinstance(s, ast.Assign) and arg.id in X.assigned_names(s)
                  and not any(X.in_subtree(s, i) for i in stmts)]
         if len(stmts) == 1 and not plain:
-            paths = nf.decision_paths([stmts[0]])
+            env = lib.local_env(fn)
+            pre = [ast.Assign(targets=[ast.Name(id=n, ctx=ast.Store())], value=env[n], lineno=0)
+                   for n in sorted(X.names_loaded(stmts[0].test)) if n in env and n != arg.id]
+            paths = nf.decision_paths(pre + [stmts[0]])
             value = lambda p: p.leaf.env.get(arg.id) if p.leaf.kind == 'fall' else None
         elif not stmts and len(plain) == 1:
             paths = nf.decision_paths([_split_ifexp(ast.Assign(targets=plain[0].targets, value=lib.inline_locals(plain[0].value, fn)))])
@@ -921,7 +928,7 @@ CALL_PATS = ["self.evaluate_sum(_W['summand'], _W['lower'], _W['upper'], _W['sum
 
 def d3_author(ctx, idx):
     r = ctx.rule('D3.AUTHOR', "gen_evaluations: author's sum guarded (MITxError -> ConfigError), student's not; instructor variables "
-                 "deleted in between and reloaded per sample; results in (author, student, functions) roles", floor=7)
+                 "deleted in between and reloaded per sample; results in (author, student, functions) roles, also into compare_evaluations", floor=9)
     with r:
         fi = idx.func(SG + '.gen_evaluations')
         fn = fi.node
@@ -1082,9 +1089,56 @@ def d3_author(ctx, idx):
                     lib.loc(fi, rets[0]))
         a_app = [(st_, b_) for st_, b_ in all_app if isinstance(b_['_V'], ast.Name) and b_['_V'].id in A_al]
         s_app = [(st_, b_) for st_, b_ in all_app if isinstance(b_['_V'], ast.Name) and b_['_V'].id in S_al]
+        _compare_roles(r, idx)
         for lst_stmt, _ in a_app + s_app:
             if not X.in_subtree(lst_stmt, main):
                 r.violation(construct, '`%s` is outside the loop over the samples: only the last sample is compared' % short(lst_stmt), lib.loc(fi, lst_stmt))
+
+
+def _compare_roles(r, idx):
+    """raw_check: compare_evaluations(author's values, student's values, ...) and the student's functions are returned."""
+    fi = idx.func(SB + '.raw_check')
+    fn = fi.node
+    un = X.find_stmts(fn, "_A, _S, _F = self.gen_evaluations(*__)")
+    calls = lib.calls_named(fn, 'compare_evaluations')
+    construct = "raw_check: compare_evaluations receives the author's values first, the student's second"
+    if len(un) != 1 or len(calls) != 1 or not all(isinstance(un[0][1][k], ast.Name) for k in ('_A', '_S', '_F')):
+        r.undecided(construct, 'unpacking of gen_evaluations / the compare_evaluations call not recognised', fi.loc)
+        return
+    A_al = X.aliases(fn, un[0][1]['_A'].id)
+    S_al = X.aliases(fn, un[0][1]['_S'].id)
+    F_al = X.aliases(fn, un[0][1]['_F'].id)
+    params = idx.func('mitxgraders.helpers.math_helpers.MathMixin.compare_evaluations').params
+    bound = X.bind_call(calls[0], params, skip_self=True)
+    a0, a1 = bound.get(params[1]), bound.get(params[2])
+
+    def who(e):
+        e = lib.inline_locals(e, fn) if e is not None else None
+        if isinstance(e, ast.Name):
+            return 'author' if e.id in A_al else ('student' if e.id in S_al else None)
+        return None
+    w0, w1 = who(a0), who(a1)
+    if w0 == 'author' and w1 == 'student':
+        r.ok(construct, short(calls[0], 90), lib.loc(fi, calls[0]))
+    elif w0 == 'student' and w1 == 'author':
+        r.violation(construct, "the student's values are passed first and the author's second: the comparer measures a percentage tolerance "
+                    "relative to its first argument, so the tolerance becomes relative to the student's sum (and expected-shape checks apply "
+                    "to the wrong side)", lib.loc(fi, calls[0]), expected='compare_evaluations(instructor_evals, student_evals, ...)',
+                    found=short(calls[0], 80))
+    elif w0 is not None and w0 == w1:
+        r.violation(construct, "both compared lists are the %s's values" % w0, lib.loc(fi, calls[0]))
+    else:
+        r.undecided(construct, 'arguments not recognised: %s' % short(calls[0]), lib.loc(fi, calls[0]))
+    construct = "raw_check: the functions used by the student are returned for the restriction checks"
+    rets = lib.returns_of(fn)
+    if len(rets) == 1 and isinstance(rets[0].value, ast.Tuple) and len(rets[0].value.elts) == 2:
+        e = rets[0].value.elts[1]
+        if isinstance(e, ast.Name) and e.id in F_al:
+            r.ok(construct, '', lib.loc(fi, rets[0]))
+        else:
+            r.undecided(construct, 'second returned value not recognised: %s' % short(e), lib.loc(fi, rets[0]))
+    else:
+        r.undecided(construct, 'return not recognised', fi.loc)
 
 
 # ----------------------------------------------------------------------------- D4
@@ -1380,6 +1434,7 @@ MUTANTS = [
     Mutant('results-exchanged', IG, "instructor_eval=expected_eval)\n\n        return instructor_evals, student_evals, used_funcs",
            "instructor_eval=expected_eval)\n\n        return student_evals, instructor_evals, used_funcs", 'D3'),
     Mutant('author-value-overwritten', IG, "            instructor_evals.append(expected_eval)", "            instructor_evals.append(student_eval)", 'D3'),
+    Mutant('comparison-roles-exchanged', IG, "self.compare_evaluations(instructor_evals, student_evals,", "self.compare_evaluations(student_evals, instructor_evals,", 'D3'),
     Mutant('blank-test-never-true', IG, "            if structured_input[key] == '':", "            if structured_input[key] is None:", 'D4'),
     Mutant('dummy-validation-dropped', IG, "        self.validate_user_dummy_variable(structured_input[self.wording['adjective'] + '_variable'])\n", "", 'D4'),
     Mutant('blank-check-after-dummy-validation', IG,
